@@ -3,6 +3,7 @@ import TantivyModel.Model.QuerySem
 import TantivyModel.Model.BoolCompile
 import TantivyModel.Model.PhraseSlop
 import TantivyModel.Model.OrderEnc
+import TantivyModel.Model.JsonRange
 /-
 Line protocol of the C03 model.
 
@@ -10,6 +11,7 @@ Line protocol of the C03 model.
   C03 search <0|1> <top 0|1> <corpus> <query>…  implementation model: `searchIds`/`searchIdsTop leafTree scoring`
   C03 count <corpus> <query>…             implementation model: Σ `weightCount`
   C03 ok <query>…                         side conditions `okQ singleClauseGuard` of C03_compile_sound_partial
+  C03 jrange <col i|u> <values supplied as i|u> <lk> <lt> <lv> <uk> <ut> <uv> <values>   JSON numeric range: impl bits | spec bits | column type as predicted
   C03 guard                               does BooleanWeight::scorer's single-clause branch honour msm (extracted)
   C03 slop <on|off> <slop> <l1/l2/…>      the two phrase-slop algorithms on adjusted position lists
   C03 i64 <u64 bits> / C03 f64 <u64 bits> order-preserving encodings (on bit patterns)
@@ -195,11 +197,34 @@ def handle : List String → String
   | ["slop", mode, slop, ls] =>
     match slop.toNat?, slashLists ls with
     | some slop, some ls =>
-      if mode == "on" then showBool (PhraseSlop.phraseOn ls slop)
-      else if mode == "off" then showBool (PhraseSlop.phraseOff ls slop)
+      if mode == "on" then showBool (if slop = 0 then PhraseSlop.exactOn ls else PhraseSlop.phraseOn ls slop)
+      else if mode == "off" then showBool (if slop = 0 then PhraseSlop.exactOff ls else PhraseSlop.phraseOff ls slop)
       else if mode == "spec" then showBool (phraseSlop ls slop)
       else "bad-op"
     | _, _ => "bad-op"
+  | ["jrange", col, sup, lk, lt, lv, uk, ut, uv, vals] =>
+    let pcol : Option JsonRange.ColT := if col == "i" then some .i64 else if col == "u" then some .u64 else none
+    let pbv (t v : String) : Option JsonRange.BV :=
+      if t == "i" then v.toInt?.map .i else if t == "u" then v.toNat?.map .u
+      else if t == "f" then v.toInt?.map .f else none
+    let pb (k t v : String) : Option JsonRange.B :=
+      if k == "u" then some .unb
+      else if k == "i" then (pbv t v).map .incl
+      else if k == "e" then (pbv t v).map .excl else none
+    if col == "f" then
+      match pb lk lt lv, pb uk ut uv, intList vals with
+      | some lo, some hi, some vs =>
+        String.ofList (vs.map (fun v => if JsonRange.implMatchF lo hi v then '1' else '0')) ++ "|" ++
+        String.ofList (vs.map (fun v => if JsonRange.specMatchF lo hi v then '1' else '0')) ++ "|" ++
+        (if sup == "f" then "1" else "0")
+      | _, _, _ => "bad-op"
+    else
+    match pcol, pb lk lt lv, pb uk ut uv, intList vals with
+    | some col, some lo, some hi, some vs =>
+      String.ofList (vs.map (fun v => if JsonRange.implMatchG JsonRange.Guards.extracted col lo hi v then '1' else '0')) ++ "|" ++
+      String.ofList (vs.map (fun v => if JsonRange.specMatch lo hi v then '1' else '0')) ++ "|" ++
+      (if JsonRange.colOf (sup == "u") vs == col then "1" else "0")
+    | _, _, _, _ => "bad-op"
   | ["i64", v] =>
     match v.toNat? with
     | some v => toString (OrderEnc.i64_to_u64 (BitVec.ofNat 64 v)).toNat
